@@ -1,10 +1,11 @@
 (* The single entry point of the correspondence drivers. *)
-From PV Require Import Common.Wire Frame.Dispatch Chain.Dispatch Socks.Dispatch.
+From PV Require Import Common.Wire Frame.Dispatch Chain.Dispatch Socks.Dispatch Mux.Dispatch.
 
-Definition run (c : list N) : list N :=
+Definition dispatch (c : list N) : list N :=
   match c with
   | 9 :: r => run_frame r
   | 20 :: r => run_chain r
   | 18 :: r => run_socks r
+  | 30 :: r => run_mux r
   | _ => MALFORMED
   end.
